@@ -35,6 +35,7 @@ LitLexemes == << S("i5"), S("i-5"), S("i0"), S("i1701411834604692317316873037158
                  \* a line of a string constant that looks like a comment line
                  Q \o S("see") \o <<10>> \o S("// note") \o <<10>> \o S("end") \o Q, Q \o S("a") \o <<10>> \o S("  //") \o Q >>
 Leaf(lexeme) == Val(Denote(Lex(lexeme).toks[1]).v)
+FoldLex == << S("f0"), S("f1e999"), S("f1.5"), S("i5"), S("d1.50"), S("f-0") >>
 
 A == Ref(S("a"))
 UnK == {"not", "neg", "some", "none", "int", "float", "dec", "datetime", "duration", "uppercase", "lowercase", "trim",
@@ -63,6 +64,9 @@ Init == \/ /\ t \in {A, Sym(S("s")), VecE(<<>>), MapE(<<>>)} /\ lx = <<>> /\ d =
                    \cup {Bin(k, If(A, A, A), Bin("add", A, A)) : k \in {"bitand", "bitor", "bitxor", "contains"}}
            /\ lx = <<>> /\ d = Depth - 1
         \/ \E i \in 1..Len(LitLexemes) : t = Leaf(LitLexemes[i]) /\ lx = LitLexemes[i] /\ d = 0
+        \* an arithmetic node over two (equal) literals: nothing is computed when the text is read
+        \/ \E i \in 1..Len(FoldLex), k \in {"div", "sub", "mult", "rem", "add"} :
+              t = Bin(k, Leaf(FoldLex[i]), Leaf(FoldLex[i])) /\ lx = FoldLex[i] /\ d = 1
 \* literal leaves are wrapped once; the reference leaf up to Depth times (the third level over a reduced set)
 Next == /\ d < (IF lx # <<>> THEN 1 ELSE Depth)
         /\ (d = 2 => t.k \in {"bitand", "neg", "not", "index", "contains", "if", "add", "call", "vec"})
